@@ -182,6 +182,12 @@ func Read(d *decimal.Decimal) Snap {
 		s.Malformed = strings.Join(bad, "; ")
 		return s
 	}
+	if need := (uint64(s.Prec) + DW - 1) / DW; len(mant) > 1<<22 && uint64(len(mant)) > need+2 {
+		// an unrounded result of tens of millions of digits: report it without spelling it out
+		s.Malformed = fmt.Sprintf("mantissa of %d words (%d digits) at precision %d", len(mant), uint64(len(mant))*DW, s.Prec)
+		s.Digits, s.Exp = "1", int64(exp)
+		return s
+	}
 	s.Words = make([]uint64, len(mant))
 	for i, w := range mant {
 		s.Words[i] = uint64(w)
